@@ -67,6 +67,8 @@ var c08Templates = [][]string{
 	// a substitution that closes while its own here-document (<<Z) is still pending sits next to the site; what
 	// <<Z itself receives is left open (POSIX does not say), but it must not disturb the site's body
 	{"cat @H $(cat <<Z)"}, {"cat @H `cat <<Z`"}, {"cat $(cat <<Z) @H"}, {"cat @H $(cat <<Z) @H"}, {"cat @H | b $(cat <<Z; c <<Z)"},
+	// a comment between the token that lets the command continue on the next line and that newline
+	{"cat @H | # c", "b"}, {"cat @H && # c", "b"}, {"case x in a) cat @H ;; # c", "esac"}, {"cat @H | # c", "cat @H"}, {"f() # c", "{ cat @H; }"},
 }
 
 func c08Sites(t []string) int {
@@ -390,7 +392,7 @@ func init() {
 	register(&check{
 		id:    "C08",
 		level: "model_checking",
-		rule: "37 host templates with 1–3 here-document sites (simple command, both sides of a pipe, lists, every compound form, function body, compound redirection, inside $( ) and backquotes, before && / | + newline, numbered, several on one line and on different lines) × {<<, <<- with 0–3 tabs before the delimiter line} × delimiters {E, 'E', \"E\", E\\F} × bodies from the 12-line menu " +
+		rule: "42 host templates with 1–3 here-document sites (simple command, both sides of a pipe, lists, every compound form, function body, compound redirection, inside $( ) and backquotes, before && / | + newline, numbered, several on one line and on different lines) × {<<, <<- with 0–3 tabs before the delimiter line} × delimiters {E, 'E', \"E\", E\\F} × bodies from the 12-line menu " +
 			"{empty, x, 'E ', ' E', EE, tab+x, tab+E, $v, $(c), `c`, \\$v, a\\b} (one-site: all sequences ≤ 2 lines; two sites: ≤ 1 line each; three sites: 8 variants each); every program under ALL schedules of the lexer/parser pair (one site) or all schedules with ≤ 1 preemption (more sites); second phase: every sentence of the derivation generator that carries a here-document (D0, D1, DH; thorough D2, DC) in one-line and multi-line layout under all schedules with ≤ 1 preemption, judged against the grammar model's AST",
 		assume: []string{"backslash-newline inside bodies is outside the alphabet (POSIX removes it, 'byte for byte' cannot be demanded there)", "scheduler as in C06 (e2.go)"},
 		run:    c08Run,
